@@ -974,6 +974,9 @@ func makeObject(props map[string]string, schema *openapi3.SchemaRef) (map[string
 	return result, nil
 }
 
+// maxArrayIndexGap bounds the null elements sliceMapToSlice adds for indexes that are not given.
+const maxArrayIndexGap = 1024
+
 // example: map[0:map[key:true] 1:map[key:false]] -> [map[key:true] map[key:false]]
 func sliceMapToSlice(m map[string]any) ([]any, error) {
 	var result []any
@@ -991,6 +994,10 @@ func sliceMapToSlice(m map[string]any) ([]any, error) {
 		if k > max {
 			max = k
 		}
+	}
+	// absent indexes become null elements: bound how many of them a few bytes of query can ask for
+	if max >= len(m)+maxArrayIndexGap {
+		return nil, fmt.Errorf("array index %d is too far beyond the %d elements given", max, len(m))
 	}
 	for i := 0; i <= max; i++ {
 		val, ok := m[strconv.Itoa(i)]
